@@ -68,7 +68,9 @@ Inductive agg :=
   | AssignQ (qs : Assign.quals) (v : Z) (e : nexp).   (* @v.<qualifiers> = e (no onmatch): written and voted as Match/Assign.do_assignment decides *)
 Inductive action := AssignN (x : Z) (e : nexp) | AssignS (x : Z) (e : sexp) | PushN (k : Z) (e : nexp) | PushS (k : Z) (e : sexp) | Pop (x k : Z) | PushD (k : Z) (e : nexp)
   | Agg (g : agg).
-Inductive comp := CB (b : bexp) | CAct (a : action) | CWhen (b : bexp) (a : action) | CAgg (g : agg).
+Inductive comp := CB (b : bexp) | CAct (a : action) | CWhen (b : bexp) (a : action) | CAgg (g : agg)
+  | CMod (na : bool) (i : nat) (k r : Z).    (* mod(#h, k) == r   /   (na) not(above(mod(#h, k), r)), k a non-zero literal: a cell that is not a number makes mod() raise,
+                                                and a component that raised declines the line whatever it is wrapped in *)
 
 (** what the match part owns *)
 Record mx := mkMx { vars : list (Z * value); stacks : list (Z * list value); dicts : list (Z * list (ustring * value)) }.
@@ -369,6 +371,12 @@ Section Eval.
     | CAct a => (do_action s l a, AND)          (* default_match(): neutral for the logic mode *)
     | CWhen b a => if beval s l b then (do_action s l a, true) else (s, false)
     | CAgg g => do_agg s l g
+    | CMod na i k r =>
+        (s, match cell l i with
+            | Some t => match parse_int t with
+                        | Some z => if na then negb (r <? z mod k) else (z mod k =? r)      (* Python's float %: the result takes the divisor's sign, as Z.modulo *)
+                        | None => false end
+            | None => false end)
     end.
 
   (** CsvPath.matches for a CORE program: the adjudication loop over the components *)
